@@ -11,9 +11,15 @@ use serde_json::Value;
 
 fn sample_of(case: &PCase, run: &PRun) -> String {
   format!(
-    "{} {} {}: {} => [{}]{}",
+    "{} {} {}{}{}: {} => [{}]{}",
     if case.threads_flavour { "threads" } else { "local" },
     if case.fifo { "fifo" } else { "any-ready" },
+    match (case.sub_style, case.closure_subscriber) {
+      (2, _) => "[on_complete.on_error.subscribe] ",
+      (_, true) => "[on_error.on_complete.subscribe] ",
+      _ => "",
+    },
+    if case.finish_after > 0 { format!("[subscriber has enough after {}] ", case.finish_after) } else { String::new() },
     serde_json::to_string(&case.root).unwrap_or_default(),
     run.trace.trim(),
     run.recs.iter().map(|r| fmt_ev(&r.ev)).collect::<Vec<_>>().join(" "),
@@ -71,7 +77,9 @@ fn gen_case(rng: &mut Rng, tier: Tier, sched_weight: usize, cut: (usize, usize),
   let acts = gen_script(rng, n_hot, uses, &ScriptCfg { len: (3, 28), cut, post_terminal: true });
   {
     let sub_at = if rng.chance(1, 4) { rng.below(acts.len().max(1)) } else { 0 };
-    PCase { threads_flavour: rng.chance(1, 2), fifo: rng.chance(1, 2), n_hot, root, acts, sub_at, closure_subscriber: rng.chance(1, 4) }
+    let style = rng.below(6);
+    let finish_after = if rng.chance(1, 5) { rng.range(1, 3) } else { 0 };
+    PCase { threads_flavour: rng.chance(1, 2), fifo: rng.chance(1, 2), n_hot, root, acts, sub_at, closure_subscriber: style == 1, sub_style: if style == 2 { 2 } else { 0 }, finish_after }
   }
 }
 
